@@ -328,6 +328,8 @@ def load_known(pid):
 
 # ----------------------------------------------------------------------------- main
 def write_replay(P, name, obj):
+    if getattr(P, "PART", None):
+        name = P.PART + "_" + name
     d = os.path.join(VERIF, "replays", P.ID)
     os.makedirs(d, exist_ok=True)
     path = os.path.join(d, name)
@@ -344,18 +346,21 @@ def main():
     pid = args[0].upper()
     tier = os.environ.get("VERIF_TIER", "quick")
     replay = None
+    part = None     # a further model/implementation pair that serves the same property (tools/props/<id>_<part>.py)
     i = 1
     while i < len(args):
         if args[i] == "--tier":
             tier = args[i + 1]; i += 2
         elif args[i] == "--replay":
             replay = args[i + 1]; i += 2
+        elif args[i] == "--part":
+            part = args[i + 1]; i += 2
         else:
             i += 1
     seed = int(os.environ.get("VERIF_SEED", "20260925"))
     if tier == "thorough":
         os.environ.setdefault("VERIF_COQCHK", "1")
-    P = importlib.import_module("props." + pid.lower())
+    P = importlib.import_module("props." + pid.lower() + ("_" + part if part else ""))
     t_start = time.time()
 
     if replay:
@@ -568,13 +573,26 @@ def main():
         "violations": 1 if exit_code else 0,
     }
     os.makedirs(os.path.join(VERIF, "evidence"), exist_ok=True)
-    with open(os.path.join(VERIF, "evidence", pid + ".json"), "w") as f:
+    evpath = os.path.join(VERIF, "evidence", pid + ".json")
+    if part and os.path.exists(evpath) and time.time() - os.path.getmtime(evpath) < 3600:
+        # merge into the evidence the main part of this check wrote a moment ago
+        main_ev = json.load(open(evpath))
+        mc = main_ev["coverage"]
+        mc.setdefault("parts", {})[part] = cov
+        for k in ("evaluations", "distinct_nontrivial", "traces_validated_against_impl", "obligations", "discharged",
+                  "disagreements", "monitor_failures", "in_coq_crosscheck_cases"):
+            mc[k] = mc.get(k, 0) + cov.get(k, 0)
+        mc["samples"] = mc.get("samples", []) + cov.get("samples", [])[:1]
+        main_ev["wall_s"] = round(main_ev.get("wall_s", 0) + evidence["wall_s"], 2)
+        main_ev["violations"] = max(main_ev.get("violations", 0), evidence["violations"])
+        evidence = main_ev
+    with open(evpath, "w") as f:
         json.dump(evidence, f, indent=1)
     for l in verdict_lines:
         print(l)
     if exit_code == 0:
-        print("OK property=%s tier=%s scripts=%d nontrivial=%d obligations=%d wall=%.1fs" % (
-            pid, tier, len(scripts), len(n_nontrivial), cov.get("obligations", 0), time.time() - t_start))
+        print("OK property=%s%s tier=%s scripts=%d nontrivial=%d obligations=%d wall=%.1fs" % (
+            pid, (" part=" + part) if part else "", tier, len(scripts), len(n_nontrivial), cov.get("obligations", 0), time.time() - t_start))
     sys.exit(exit_code)
 
 
